@@ -7,6 +7,7 @@ package conc
 
 import (
 	"bytes"
+	"runtime"
 
 	"fmt"
 	"github.com/ozanh/ugo/encoder"
@@ -553,11 +554,38 @@ return strings.Map(func(ch) {
 				return "a VM running concurrently with the aborted one returned " + r
 			}
 		}
-		// afterwards: callbacks of other VMs draw child VMs from the same pool
+		// afterwards: callbacks of other VMs draw child VMs from the same pool.  A sync.Pool keeps a
+		// released object in the private slot of the P that released it, so the later runs are spread
+		// over many goroutines (all Ps) to find it.
 		for k := 0; k < 8; k++ {
 			if r := run(ugo.NewVM(bc), 3, "later"); r != "laterabc" {
 				return fmt.Sprintf("after another VM was aborted, a new VM's callback run returned %q (want \"laterabc\")", r)
 			}
+		}
+		workers := 4 * runtime.GOMAXPROCS(0)
+		bad := make(chan string, workers)
+		var wg sync.WaitGroup
+		for w := 0; w < workers; w++ {
+			wg.Add(1)
+			go func() {
+				defer wg.Done()
+				for k := 0; k < 40; k++ {
+					if r := run(ugo.NewVM(bc), 3, "later"); r != "laterabc" {
+						select {
+						case bad <- r:
+						default:
+						}
+						return
+					}
+					runtime.Gosched()
+				}
+			}()
+		}
+		wg.Wait()
+		select {
+		case r := <-bad:
+			return fmt.Sprintf("after another VM was aborted, a new VM's callback run returned %q (want \"laterabc\")", r)
+		default:
 		}
 	}
 	return ""
